@@ -274,7 +274,11 @@ impl Commune {
     self.M.clone()
   }
 
-  fn verify(&self, J: &[u8; MAC_LENGTH]) -> Result<(), Box<dyn Error>> {
+  fn verify(
+    &self,
+    J: &[u8; MAC_LENGTH],
+    K: &[u8],
+  ) -> Result<(), Box<dyn Error>> {
     let mut transcript = self
       .clone()
       .T
@@ -286,7 +290,17 @@ impl Commune {
 
     transcript
       .recv_mac(J)
-      .map_err(|_| "Mac validation failed".into())
+      .map_err(|_| "Mac validation failed")?;
+
+    // The key the shares interpolate to must be the one this transcript
+    // derives. When both the message and the coins are empty nothing is
+    // decrypted with the key, so the MAC alone does not bind the shares.
+    let mut expected = [0u8; 16];
+    transcript.prf(&mut expected, false);
+    if K != expected {
+      return Err("Recovered key does not match the shared values".into());
+    }
+    Ok(())
   }
 }
 
@@ -327,7 +341,7 @@ where
     T: None,
   };
 
-  c.verify(&s.J.clone())?;
+  c.verify(&s.J.clone(), &K)?;
   Ok(c)
 }
 
